@@ -20,7 +20,7 @@ ASSUMPTIONS = [
     "predictor matrices of `R ~ rhs` are compared with those of `rhs` alone and of `y ~ rhs` exactly",
 ]
 
-VALID = ["y", "x", "f", "g", "h", "u", "g[g1]", "g['g1']", 'h["lo"]', "w['a b']", 'w["c d"]', "f[zz]", "np.abs(y)", "binary(g, 'g1')",
+VALID = ["y", "x", "k", "I(x > 0)", "f", "g", "h", "u", "g[g1]", "g['g1']", 'h["lo"]', "w['a b']", 'w["c d"]', "f[zz]", "np.abs(y)", "binary(g, 'g1')",
          "C(k)", "prop(s, n)", "p(s, n)", "proportion(s, n)", "prop(s, 40)", "p(s, 40)", None]
 INVALID = ["y + x", "y:x", "y*x", "1", "0", "offset(y)", "y / x", "(y | g)", "2"]
 
@@ -51,8 +51,10 @@ def expected_response(resp, frame, spec):
     def col(name):
         return frame[name]
 
-    if resp in ("y", "x"):
+    if resp in ("y", "x", "k"):
         return "numeric", col(resp).to_numpy(dtype=float), None
+    if resp == "I(x > 0)":
+        return "numeric", (col("x") > 0).to_numpy(dtype=float), None
     if resp == "np.abs(y)":
         return "numeric", np.abs(col("y").to_numpy(dtype=float)), None
     if resp in ("f", "g", "h", "u", "C(k)"):
